@@ -347,6 +347,10 @@ func main() {
 		uniq = append(uniq, v)
 	}
 
+	// A violation of clause X by the chain "A | B" is attributed to A or B when that operator alone
+	// violates (or is known to violate) clause X: one defect, one signature.
+	uniq = attributePairs(uniq, nil)
+
 	// 5. known findings
 	var kf knownFile
 	if b, err := os.ReadFile(filepath.Join(verifDir, "known_findings.json")); err == nil {
@@ -361,6 +365,7 @@ func main() {
 			known[f.Signature] = f.Description
 		}
 	}
+	uniq = attributePairs(uniq, known)
 	exit := 0
 	var knownSeen, pinned []string
 	nviol := 0
@@ -376,6 +381,10 @@ func main() {
 			continue
 		}
 		nviol++
+		if nviol > 25 {
+			exit = 1
+			continue
+		}
 		rp := map[string]interface{}{"property": prop, "scenario": v.Scenario, "case": v.Case, "choices": v.Choices, "signature": v.Signature, "detail": v.Detail,
 			"replay_cmd": fmt.Sprintf("bin/check %s --replay <this file>", prop)}
 		b, _ := json.MarshalIndent(rp, "", " ")
@@ -384,6 +393,10 @@ func main() {
 		fmt.Printf("VIOLATION property=%s replay=%s\n", prop, path)
 		fmt.Printf("  signature: %s\n  scenario:  %s case %s\n  detail:    %s\n  choices:   %v\n", v.Signature, v.Scenario, v.Case, v.Detail, v.Choices)
 		exit = 1
+	}
+
+	if nviol > 25 {
+		fmt.Printf("... and %d more violation signatures (not written out)\n", nviol-25)
 	}
 
 	// 6. evidence
@@ -481,4 +494,44 @@ func hash8(s string) string {
 		h *= 16777619
 	}
 	return fmt.Sprintf("%08x", h)
+}
+
+// sigParts splits kind/operator/clause/class.
+func sigParts(sig string) (kind, op, clause, class string, ok bool) {
+	p := strings.Split(sig, "/")
+	if len(p) < 4 {
+		return "", "", "", "", false
+	}
+	return p[0], strings.Join(p[1:len(p)-2], "/"), p[len(p)-2], p[len(p)-1], true
+}
+
+func attributePairs(vs []violation, known map[string]string) []violation {
+	single := map[string]bool{} // operator + clause
+	for _, v := range vs {
+		if _, op, clause, _, ok := sigParts(v.Signature); ok && !strings.Contains(op, " | ") && !v.Pinned {
+			single[op+"\x00"+clause] = true
+		}
+	}
+	for sig := range known {
+		if _, op, clause, _, ok := sigParts(sig); ok && !strings.Contains(op, " | ") {
+			single[op+"\x00"+clause] = true
+		}
+	}
+	var out []violation
+	for _, v := range vs {
+		_, op, clause, _, ok := sigParts(v.Signature)
+		if ok && strings.Contains(op, " | ") {
+			sub := false
+			for _, part := range strings.Split(op, " | ") {
+				if single[part+"\x00"+clause] {
+					sub = true
+				}
+			}
+			if sub {
+				continue
+			}
+		}
+		out = append(out, v)
+	}
+	return out
 }
